@@ -179,6 +179,13 @@ pub fn c16(tier: &str, seed: u64) {
     if joint {
       stat("oracle.C16.joint_extremes");
     }
+    // RELATED message and coins: equal strings, one a prefix of the other, coins all zero
+    let (m, r) = match case_i % 11 {
+      3 if !joint && !big => { stat("oracle.C16.coins_equal_message"); let v = if m.is_empty() { vec![7u8, 7] } else { m.clone() }; (v.clone(), v) }
+      7 if !joint && !big => { stat("oracle.C16.coins_prefix_of_message"); let mut v = r.clone(); v.extend(&m); (v, r) }
+      9 if !joint && !big => { stat("oracle.C16.coins_all_zero"); (m.clone(), vec![0u8; m.len()]) }
+      _ => (m, r),
+    };
     let c = Commune::new(t, m.clone(), r.clone(), None);
     let cnt = (t as usize + 2).max(2);
     // history: the same (t, M, R) was shared under a custom transcript immediately before
@@ -188,8 +195,18 @@ pub fn c16(tier: &str, seed: u64) {
       let _ = Commune::new(t, m.clone(), r.clone(), Some(tr)).share();
       stat("oracle.C16.preceded_by_custom_transcript");
     }
-    let shares: Vec<AShare> = (0..cnt).map(|_| c.clone().share().expect("share")).collect();
-    let desc = vec![("threshold", t.to_string()), ("preceded_by_custom_transcript_sharing_of_same_inputs", preceded.to_string()), ("message", hex(&m[..m.len().min(64)])), ("message_len", m.len().to_string()), ("coins_len", r.len().to_string())];
+    let desc = vec![("threshold", t.to_string()), ("preceded_by_custom_transcript_sharing_of_same_inputs", preceded.to_string()), ("message", hex(&m[..m.len().min(64)])), ("message_len", m.len().to_string()), ("coins_len", r.len().to_string()), ("coins", hex(&r[..r.len().min(64)]))];
+    // sharing works for ANY message and coins (equal ones, all-zero ones, one a prefix of the other)
+    let shares: Vec<AShare> = match (0..cnt).map(|_| c.clone().share()).collect::<Result<Vec<_>, _>>() {
+      Ok(v) => v,
+      Err(e) => {
+        let mut d = desc.clone();
+        d.push(("error", e.to_string()));
+        fail("share_refused", &d);
+        case(true);
+        continue;
+      }
+    };
     // deterministic except for the Shamir share
     let strip = |s: &AShare| {
       let b = s.to_bytes();
@@ -224,7 +241,7 @@ pub fn c16(tier: &str, seed: u64) {
           }
           // the recovered commune is the original one: its shares combine with the originals
           if t >= 2 {
-            let fresh = rc.clone().share().expect("reshare");
+            let Ok(fresh) = rc.clone().share() else { fail("reshare_refused", &desc); continue; };
             if strip(&fresh) != strip(&shares[0]) {
               fail("reshare_differs", &desc);
             }
@@ -477,6 +494,24 @@ pub fn c05(tier: &str, seed: u64) {
       g.shuffle(&mut pool);
       let keep = g.range(1, pool.len() as u64) as usize;
       pool.truncate(keep);
+      // REPEATS inside the mixture: the first share again further back (or at the very end), other
+      // shares twice - the first share still decides whose message may come back
+      if g.chance(1, 2) {
+        stat("oracle.C05.mixtures_with_repeats");
+        let first = pool[0].clone();
+        match g.below(3) {
+          0 => pool.push(first),
+          1 => {
+            let at = g.range(1, pool.len() as u64) as usize;
+            pool.insert(at.min(pool.len()), first);
+          }
+          _ => {
+            let d = g.pick(&pool).clone();
+            let at = g.range(1, pool.len() as u64) as usize;
+            pool.insert(at.min(pool.len()), d);
+          }
+        }
+      }
       let first_owner = pool[0].0;
       let expect: &Vec<u8> = if first_owner == 0 { &m } else { &others[first_owner - 1].0 };
       let p: Vec<AShare> = pool.iter().map(|(_, b)| AShare::from_bytes(b).unwrap()).collect();
@@ -488,6 +523,41 @@ pub fn c05(tier: &str, seed: u64) {
         _ => {}
       }
       case(true);
+    }
+    // DIRECTED: the first share (sharing A) repeated later, enough shares of a foreign sharing B of
+    // the same threshold around it, a share of B at the very end; and the same with B first
+    if t >= 1 && cnt >= 1 {
+      let mb = g.blob(6);
+      let cb = Commune::new(t, mb.clone(), g.blob(8), None);
+      let bsh: Vec<Vec<u8>> = (0..t as usize + 1).map(|_| cb.clone().share().unwrap().to_bytes()).collect();
+      let a0 = shares[0].clone();
+      let mut layouts: Vec<(&str, Vec<(usize, Vec<u8>)>)> = Vec::new();
+      let mut l1 = vec![(0usize, a0.clone())];
+      l1.extend(bsh[1..].iter().map(|b| (1usize, b.clone())));
+      l1.push((0, a0.clone()));
+      l1.push((1, bsh[0].clone()));
+      layouts.push(("A0 B1..Bt A0 B0", l1));
+      let mut l2 = vec![(0usize, a0.clone())];
+      l2.extend(bsh[1..].iter().map(|b| (1usize, b.clone())));
+      l2.push((0, a0.clone()));
+      l2.extend(shares.iter().skip(1).map(|b| (0usize, b.clone())));
+      l2.push((1, bsh[0].clone()));
+      layouts.push(("A0 B1..Bt A0 A1.. B0", l2));
+      let mut l3 = vec![(0usize, a0.clone()), (0, a0.clone())];
+      l3.extend(bsh.iter().map(|b| (1usize, b.clone())));
+      layouts.push(("A0 A0 B0..Bt", l3));
+      for (name, pool) in layouts {
+        let p: Vec<AShare> = pool.iter().map(|(_, b)| AShare::from_bytes(b).unwrap()).collect();
+        let res = std::panic::catch_unwind(std::panic::AssertUnwindSafe(|| recover(&p).map(|c| c.get_message()).map_err(|_| ())));
+        let d = vec![("layout", name.to_string()), ("threshold", t.to_string()), ("owners", format!("{:?}", pool.iter().map(|x| x.0).collect::<Vec<_>>())), ("shares", hexlist(&pool.iter().map(|x| x.1.clone()).collect::<Vec<_>>())), ("message_of_first_shares_sharing", hex(&m)), ("message_of_foreign_sharing", hex(&mb))];
+        match res {
+          Err(_) => fail("recover_panicked", &d),
+          Ok(Ok(got)) if got != m => fail("mixture_returned_foreign_message", &d),
+          _ => {}
+        }
+        case(true);
+      }
+      stat("oracle.C05.directed_repeat_layouts");
     }
     if case_i == 0 {
       sample(&[("threshold", t.to_string()), ("fields", format!("{:?}", fields.iter().map(|f| f.0).collect::<Vec<_>>())), ("share", hex(&shares[0]))]);
